@@ -133,7 +133,19 @@ func (tr *Tracer) step(st *state) (*state, []*state) {
 		fld := fieldVar(in.X.Type(), in.Field)
 		f.regs[in] = fieldOf(x, fld, in.Field, in.Type())
 	case *ssa.IndexAddr:
-		f.regs[in] = &Sym{Kind: KIndexAddr, Args: []*Sym{tr.val(st, in.X), tr.val(st, in.Index)}, Typ: in.Type()}
+		x, idx := tr.val(st, in.X), tr.val(st, in.Index)
+		// an element of a slice taken over a local array (`[]T{a, b}`, buf[1:]) is that array's element
+		if x.Kind == KOp && x.Name == "slice" && len(x.Args) >= 3 && x.Args[0].Kind == KAlloc && constSliceLen(x) >= 0 {
+			if i, isC := idx.intConst(); isC && i >= 0 && i < constSliceLen(x) {
+				lo := int64(0)
+				if x.Args[1].Name != "none" {
+					lo, _ = x.Args[1].intConst()
+				}
+				f.regs[in] = &Sym{Kind: KIndexAddr, Args: []*Sym{x.Args[0], symInt(lo+i, types.Typ[types.Int])}, Typ: in.Type()}
+				break
+			}
+		}
+		f.regs[in] = &Sym{Kind: KIndexAddr, Args: []*Sym{x, idx}, Typ: in.Type()}
 	case *ssa.Index:
 		x, idx := tr.val(st, in.X), tr.val(st, in.Index)
 		if _, isArr := in.X.Type().Underlying().(*types.Array); isArr && x.Kind == KStruct {
@@ -336,7 +348,7 @@ func (tr *Tracer) gotoBlock(st *state, b *ssa.BasicBlock) (*state, []*state) {
 	from := f.block
 	back := b.Dominates(from)
 	if back {
-		if g := f.loopGen[b]; g <= 0 && g > -4 && smallConstLoop(b) && tr.phisConstOver(st, f, b, from) {
+		if g := f.loopGen[b]; g <= 0 && g > -4 && (smallConstLoop(b) || tr.smallBoundLoop(st, b)) && tr.phisConstOver(st, f, b, from) {
 			// a loop over a literal table of at most four elements (range over an array literal, i < 2):
 			// the iterations are walked one by one with their concrete index instead of being generalised
 			f.loopGen[b] = g - 1
@@ -494,6 +506,31 @@ func smallConstLoop(b *ssa.BasicBlock) bool {
 	}
 	n, exact := constant.Int64Val(k.Value)
 	return exact && n >= 0 && n <= 4
+}
+
+// smallBoundLoop: the header ends in `if x < n` where n is, on this path, a known constant 0 <= n <= 4 (the length
+// of a slice literal handed to a multi-element form: Locks([]T{key})).
+func (tr *Tracer) smallBoundLoop(st *state, b *ssa.BasicBlock) bool {
+	if len(b.Instrs) == 0 {
+		return false
+	}
+	br, ok := b.Instrs[len(b.Instrs)-1].(*ssa.If)
+	if !ok {
+		return false
+	}
+	cmp, ok := br.Cond.(*ssa.BinOp)
+	if !ok || cmp.Op != token.LSS {
+		return false
+	}
+	if _, isConst := cmp.Y.(*ssa.Const); isConst {
+		return false
+	}
+	// the bound must already have a value in this frame (computed before the loop)
+	if _, has := st.top().regs[cmp.Y]; !has {
+		return false
+	}
+	n, isC := tr.val(st, cmp.Y).intConst()
+	return isC && n >= 0 && n <= 4
 }
 
 // phisConstOver: every phi of header h takes a constant over the edge from -> h.
